@@ -78,7 +78,7 @@ PROPS = {
         "assumes": ["H1: pre-Recovery handlers call Next at most once (F16 is the recorded counter-example)"],
     },
     "C01": {
-        "n_quick": 1500, "n_thorough": 37500,
+        "n_quick": 2500, "n_thorough": 37500,
         "technique": 'Coq proof (soundness of the tree matcher by nested induction) + correspondence model ~ implementation ~ declarative priority spec',
         "level_text": 'proof: C01_dispatch_iff / C01_dispatch_iff_parsed (the latter without any hypothesis, for routes returned by the parser; for every list of accepted registrations, every path and header predicate: dispatched iff some registered route - long or short form - admits the segments and its constraints hold; hence fall-back, never not-found while an admitting route exists), C01_dispatch_sound(_registered), C01_registration_invariant (children sorted by rank with stable insertion, distinct keys, match-all last; exactly the paths of the route itself are added), C01_regex_exact; C01_priority / C01_priority_parsed: the candidates of a request (every match of every registered route whose constraints hold, each with its key (fallback, rank, birth, captured) per depth) are exactly the admitting forms, and the matcher answers with a candidate of least key - static < regex < placeholder < match-all, earlier-registered first among equals (birth = least route id below, C01_birth_is_least_id), fewest captured segments, final match-all last; C01_ordering_invariant (children sorted by (rank, birth)); C01_router_priority (the same for what the router serves in every reachable state, per method, with header gating); C01_priority_over_routes / _parsed / C01_router_priority_over_routes: RouteSpec.spec_winner - the documented order read over the LIST of registered routes, no tree in sight - equals what the tree matcher (and, in every reachable state, the router) answers; spec_winner additionally judges the answer of the implementation on every request; C01_source_styles ties the ranks to the order of the matchStyle constants in the regenerated SourceFacts.v',
         "level_note": 'trusts Coq kernel, extraction, glue; Go regexp is modelled for a fragment (literals, classes, ., concatenation, alternation, greedy * + ? with non-nullable bodies, groups); regex subjects are ASCII; inner groups are non-capturing in the model',
@@ -87,7 +87,7 @@ PROPS = {
         "assumes": ['Go regexp is modelled for a fragment (literals, classes, ., concatenation, alternation, greedy * + ? with non-nullable bodies, groups); regex subjects are ASCII; inner groups are non-capturing in the model'],
     },
     "C02": {
-        "n_quick": 1500, "n_thorough": 37500,
+        "n_quick": 2500, "n_thorough": 37500,
         "technique": 'Coq proof (capture frame lemma over the CPS matcher) + correspondence on delivered parameter maps',
         "level_text": 'proof: C02_regex_segment_values (binds of a regex segment get exactly the part their own expression matched in full, literals literal, parts concatenate), C02_regex_segment_accepts, C02_delivered_values (values are those of an adm derivation, decoded once), C02_roundtrip (substituting the values back into the route, with the optional segment iff the request used it, reproduces the path), C02_names (names are exactly the binds of the matched form, pairwise distinct), C02_reserved_route (in the map handlers get, route is the canonical text of the matched route, shadowing a bind of that name; Router.deliver is extracted and used by the correspondence)',
         "level_note": 'trusts Coq kernel, extraction, glue; Go regexp is modelled for a fragment (literals, classes, ., concatenation, alternation, greedy * + ? with non-nullable bodies, groups); regex subjects are ASCII; inner groups are non-capturing in the model; url.PathUnescape is re-implemented (validated by the correspondence)',
@@ -96,7 +96,7 @@ PROPS = {
         "assumes": ['Go regexp is modelled for a fragment (literals, classes, ., concatenation, alternation, greedy * + ? with non-nullable bodies, groups); regex subjects are ASCII; inner groups are non-capturing in the model'],
     },
     "C07": {
-        "n_quick": 1500, "n_thorough": 37500,
+        "n_quick": 2500, "n_thorough": 37500,
         "technique": 'Coq proof (refinement of an index-level transcription of the matcher, whose slice expressions can fail, to the segment-level matcher) + hostile-input correspondence under recover()',
         "level_text": 'proof: C07_matcher_never_panics / C07_index_matcher_refines - the matcher written over the path and a byte index exactly as tree.go and leaf.go do (path[next:], path[next:next+i], next+i+1, path[next-1:], the match-all loop), with out-of-range slices modelled as a panic value, never panics for any tree and any byte string and returns what the segment-level matcher returns on the split path; C07_one_outcome / C07_unknown_method_not_found / C07_path_has_segments about the total model of ServeHTTP; that the transcription is faithful is tied by the hostile stream (arbitrary bytes as path, arbitrary method tokens) under recover(); C07_source_methods: the model has one method tree per entry of httpMethods in router.go as regenerated into SourceFacts.v, the nine standard tokens',
         "level_note": 'trusts Coq kernel, extraction, glue; segment-level model; Go regexp is modelled for a fragment (literals, classes, ., concatenation, alternation, greedy * + ? with non-nullable bodies, groups); regex subjects are ASCII; inner groups are non-capturing in the model',
@@ -105,7 +105,7 @@ PROPS = {
         "assumes": ['Go regexp is modelled for a fragment (literals, classes, ., concatenation, alternation, greedy * + ? with non-nullable bodies, groups); regex subjects are ASCII; inner groups are non-capturing in the model'],
     },
     "C08": {
-        "n_quick": 1500, "n_thorough": 37500,
+        "n_quick": 2500, "n_thorough": 37500,
         "technique": 'Coq proof (acceptance characterised on the tree: both directions, by induction over AddRoute and by the uniqueness/no-clash invariants of key-carrying paths) + declarative validity predicate + correspondence on accept/reject',
         "level_text": "proof: C08_accept_iff - on every tree registration can have built, a route is accepted iff every segment classifies in the context of its own earlier segments (expressions compile, no bind reused, no inner empty segment, no second match-all before the end), no non-final segment is optional, and none of its forms has the segment texts of a registered path or a different match-all where a registered path has one in the same role; C08_invariants_preserved (wfo, live, exact key paths added), C08_accepted_reachable (whatever a form of an accepted route admits is dispatched); C08_accept_iff_valid: for every list of accepted registrations the registration is accepted iff RouteSpec.valid - the same conditions stated on the list of routes, which is the executable judge applied to the accept/reject of the implementation on every generated registration",
         "level_note": 'trusts Coq kernel, extraction, glue; regexp.Compile is an oracle (compile : src -> option re) supplied per case',
@@ -114,7 +114,7 @@ PROPS = {
         "assumes": ['regexp.Compile is an oracle'],
     },
     "C09": {
-        "n_quick": 1500, "n_thorough": 37500,
+        "n_quick": 2500, "n_thorough": 37500,
         "technique": 'Coq proof + correspondence over Headers()/request histories',
         "level_text": 'proof: C09_invisible (in every reachable router state the candidates of a request are exactly the matches by routes whose constraints hold for its headers - through the long or short form, any method - and the answer is the least of them, so a route whose constraints fail is invisible), C09_shortcut_too (same through the static shortcut), C09_gate, C09_constrained_leaves_shortcut, C09_replace',
         "level_note": 'trusts Coq kernel, extraction, glue; header regexes in the regex fragment, unanchored search modelled by Regex.search; header names canonical',
@@ -123,7 +123,7 @@ PROPS = {
         "assumes": ['Go regexp is modelled for a fragment (literals, classes, ., concatenation, alternation, greedy * + ? with non-nullable bodies, groups); regex subjects are ASCII; inner groups are non-capturing in the model'],
     },
     "C10": {
-        "n_quick": 1500, "n_thorough": 37500,
+        "n_quick": 2500, "n_thorough": 37500,
         "technique": 'Coq proof (router invariant by induction over registration/Headers histories; static lookup through the priority-sorted tree) + correspondence against tree matching',
         "level_text": 'proof: C10_unobservable - for every router state reachable by any history of successful registrations and Headers() calls, every method, path and header set, serve = serve_tree (same route, empty parameters, same header gating); rests on C10_invariant (every method tree well-formed and priority-sorted, every table entry a registered fully static unconstrained route whose own kind path is in the tree of that method) and on static_lookup (tree matching of the literals of a static path returns that route first); tied to the code by histories whose every request outcome is compared with the model and with the model tree matcher',
         "level_note": 'trusts Coq kernel, extraction, glue; the hypothesis on registered segments (canonical text injective, identifiers non-empty and slash-free) is discharged for parser output by C06_exact: C10_unobservable_parsed has no hypothesis',
